@@ -2,6 +2,7 @@ SPECIFICATION Spec
 CONSTANTS
   MaxSigs = 1
   MaxSteps = 1
+  MaxOps = 2
   Tools = {"none"}
 INVARIANT NeverAuthorized
 VIEW View
